@@ -18,6 +18,7 @@ RULE = ('tuples of 1-5 page layouts x 1-6 lines with identical ids, per-engine c
         'non-trivial = at least two engines with different positive confidences on some line; distinct = hash of the tuple description Near ties below 1e-9 relative; raw scores of large magnitude; line ids repeated per region; engines agreeing on the text. Input lines with a stored confidence.')
 RULE += ' Round 6: Engines that group the same lines into regions differently.'
 RULE += ' Round 7: main() with a minimum confidence; character tables without a blank entry; harness-side confidences for one-row-per-character lines.'
+RULE += ' Round 8: An all-but-certain engine before a certain one.'
 ASSUMPTIONS = ['every transcription is over its own engine\'s charset', 'the mean character confidence is the repository\'s get_line_confidence (itself under the C16 contracts), 0.5 per character when alignment raises ValueError, -10 for empty/None',
                'confidence equality within 1e-12']
 N = {'quick': 1500, 'thorough': 60000}
